@@ -14,6 +14,14 @@
 //!     a removed timer that is still alive when the request is served and is not the last of its list
 //!     can no longer fire: this is decided by the model acceptor (events 32/33 of `Entry::remove`).
 //!
+//! MAYV_CHAIN=n (with MAYV_CHAINERS=c chain threads, default 1; MAYV_ADDERS may be 0 then): a chain thread adds a timer of
+//! ONE fixed interval (1 ms, the 2nd chain thread 1.5 ms), parks until the handler of that very timer wakes it, and adds the
+//! next timer of the same interval at once - n times.  The interval list is re-used exactly when its last pending timer
+//! has just fired: the new head is pushed while the timer thread retires / re-arms the list's heap entry
+//! (TimeOutList::schedule_timer: pop_if -> None, peek -> None, is_empty re-check, in_use).  MAYV_SCHED=tl restricts the
+//! schedule points to timeout_list.rs and mpsc_list_v1.rs.  Oracle: a chain timer that has not fired CHAIN_LOST (0.5 s,
+//! more than all the stalls a run can get) after its deadline is lost (reported, and the chain stops).
+//!
 //! Events for the acceptor (coq/Rt/TimerThreadAccept.v):
 //!   tt.add.call (dur*1024 + id, now)   tt.add.ret (id, now)   tt.del.call (id, now)   tt.del.ret (id, now)
 //!   tt.fire (id, now)                  tt.now (0, now) after every virtual sleep
@@ -40,6 +48,8 @@ const GAPS: [u64; 6] = [0, 0, 500_000, 1_000_000, 1_500_000, 2_000_000];
 /// 3 runs two, 1 run three.  All durations and gaps of the scenario are multiples of 0.5 ms, so a timer thread that
 /// sleeps through a deadline is late by at least 0.5 ms: the oracle allows 0.25 ms.
 const SLACK: u64 = 250_000;
+const CHAIN_DURS: [u64; 2] = [1_000_000, 1_500_000];
+const CHAIN_LOST: u64 = 500_000_000;
 
 #[derive(Default, Clone)]
 struct Tm {
@@ -53,12 +63,18 @@ struct Shared {
     tm: Vec<Tm>,
     pool: Vec<(usize, TimeoutHandleOf<usize>)>,
     kept: Vec<TimeoutHandleOf<usize>>,
+    chainers: Vec<Option<may::verif::thread::Thread>>,
 }
 
 fn main() {
-    let cfg = Config::from_env();
+    let mut cfg = Config::from_env();
+    if std::env::var("MAYV_SCHED").map_or(false, |s| s == "tl") {
+        cfg.sched_files = vec!["src/timeout_list.rs", "may_queue/src/mpsc_list_v1.rs"];
+    }
+    let chain = envn("MAYV_CHAIN", 0).min(12) as usize;
+    let nchain = if chain > 0 { envn("MAYV_CHAINERS", 1).clamp(1, 2) as usize } else { 0 };
     let stalls = std::env::var("MAYV_STALL").is_ok() || std::env::var("MAYV_STALL_AT").is_ok();
-    let nact = envn("MAYV_ADDERS", 3).clamp(1, 4) as usize;
+    let nact = envn("MAYV_ADDERS", 3).clamp(if chain > 0 { 0 } else { 1 }, 4) as usize;
     let ops = envn("MAYV_OPS", 4).clamp(1, 12) as usize;
     let durset = DURSETS[(envn("MAYV_DURSET", 0) as usize) % DURSETS.len()];
     let del_pct = envn("MAYV_DEL", 30);
@@ -66,7 +82,8 @@ fn main() {
     let late_timer = envn("MAYV_LATE_TIMER", 0) != 0;
     run(cfg, move |ctx| {
         let tt: Arc<TimerThread<usize>> = Arc::new(TimerThread::new());
-        let sh = Arc::new(Mutex::new(Shared { tm: vec![Tm::default(); 1 + nact * ops], pool: vec![], kept: vec![] }));
+        let sh = Arc::new(Mutex::new(Shared { tm: vec![Tm::default(); 1 + nact * ops + nchain * chain], pool: vec![], kept: vec![], chainers: vec![None; nchain] }));
+        let chain_base = 1 + nact * ops;
         let spawn_timer = |ctx: &Ctx| {
             let tt2 = tt.clone();
             let sh2 = sh.clone();
@@ -87,6 +104,12 @@ fn main() {
                         c.fail(format!("timer {id} fired twice (at {} and at {now})", g.tm[id].fired[0]));
                     }
                     g.tm[id].fired.push(now);
+                    // a chain timer: its chain thread adds the next timer of the same interval right now
+                    let w = if id >= chain_base { g.chainers[(id - chain_base) / chain].clone() } else { None };
+                    drop(g);
+                    if let Some(w) = w {
+                        w.unpark();
+                    }
                 };
                 tt2.run(&handler);
             })
@@ -151,6 +174,41 @@ fn main() {
                             }
                         }
                     }
+                }
+            }));
+        }
+        for ci in 0..nchain {
+            let tt2 = tt.clone();
+            let sh2 = sh.clone();
+            hs.push(ctx.spawn(&format!("c{ci}"), move || {
+                let c = mayv::ctx();
+                sh2.lock().unwrap().chainers[ci] = Some(may::verif::thread::current());
+                let d = CHAIN_DURS[ci % CHAIN_DURS.len()];
+                for k in 0..chain {
+                    let id = chain_base + ci * chain + k;
+                    let now = c.now();
+                    {
+                        let mut g = sh2.lock().unwrap();
+                        g.tm[id].added = true;
+                        g.tm[id].deadline = now + d;
+                    }
+                    c.log("tt.add.call", d * 1024 + id as u64, now, None);
+                    let h = tt2.add_timer(Duration::from_nanos(d), id);
+                    c.log("tt.add.ret", id as u64, c.now(), None);
+                    sh2.lock().unwrap().kept.push(h);
+                    // wait for the handler of this timer
+                    loop {
+                        if !sh2.lock().unwrap().tm[id].fired.is_empty() {
+                            break;
+                        }
+                        let t = c.now();
+                        if t > now + d + CHAIN_LOST {
+                            c.fail(format!("chain timer {id} (interval {d} ns, added at {now} when the previous timer of this interval had just fired) has not fired {} ns after its deadline: it was pushed as the head of its interval list but no heap entry was installed for the list (lost timer, every later timer of the interval is lost with it)", t - now - d));
+                            return;
+                        }
+                        may::verif::thread::park_timeout(Duration::from_nanos(now + d + CHAIN_LOST + 1 - t));
+                    }
+                    c.log("tt.now", 0, c.now(), None);
                 }
             }));
         }
